@@ -289,7 +289,77 @@ def fixed_corpus():
     return [a, b]
 
 
+SNAKE_FAMILY = [
+    # (name, directive)  snake words carrying capitals / digits / empty words: ToPascalCase raises only the first letter of
+    # every snake word and keeps the rest AS WRITTEN (api_URL -> ApiURL, MAX_SIZE -> MAXSIZE, camel: maxsize)
+    ("api_URL", "//shoot: get;set"), ("user_ID", "//shoot: get;set"), ("MAX_SIZE", None), ("user_firstName", "//shoot: get;set"),
+    ("Api_Key", None), ("HTTP_code_v2", None), ("v2_apiURL", "//shoot: get;set"), ("x_1", "//shoot: get;set"),
+    ("tail_", "//shoot: get;set"), ("dbl__underIP", "//shoot: get;set"),
+]
+
+
+def fifth_bank_corpus():
+    """fixed packages appended AFTER the generated stream of every run (no random draw, the stream is not shifted):
+    s0..s3  the snake family x every -tagcase value, own (Names) and promoted (Outer embeds Names); s4 leading underscore;
+    d0..d3  k = 2..3 embedded structs (by value / by pointer, depth 1 / 2) that all carry an exported field ID, and an own
+            field ID declared before / between / after them: the own field (depth 0) hides EVERY promoted one, the shadow
+            struct and the JSON bodies list ID once."""
+    B, N, f = ctorgen.T_basic, ctorgen.T_named, ctorgen.fdecl
+    P = lambda n: ("ptr", N("", n))
+    res = []
+    tys = ["string", "int", "int64", "bool", "float64"]
+    for i, tc in enumerate(["pascal", "camel", "lower", "upper"]):
+        names = _sd("Names", [f([n], B(tys[j % len(tys)]), [d] if d else ()) for j, (n, d) in enumerate(SNAKE_FAMILY)])
+        outer = _sd("Outer", [f([], N("", "Names")), f(["req_ID"], B("int"), ["//shoot: get;set"]), f(["Max_TTL"], B("int"))])
+        res.append({"name": "s%d" % i, "structs": [names, outer], "tagcase": tc})
+    # a leading underscore keeps the field out of the constructor (outside the guard: model and code are only compared)
+    res.append({"name": "s4", "tagcase": "pascal", "structs": [
+        _sd("Lead", [f(["_lead_ID"], B("int"), ["//shoot: get;set"]), f(["plain_URL"], B("string"), ["//shoot: get;set"])])]})
+
+    def carriers():
+        return [_sd("Audit", [f(["ID"], B("int")), f(["who"], B("string"))]),
+                _sd("Meta", [f(["ID"], B("int")), f(["rev"], B("int"))]),
+                _sd("Extra", [f(["ID"], B("int")), f(["note"], B("string"))])]
+    own, ttl = f(["ID"], B("int")), lambda n: f([n], B("string"))
+    e = lambda t: f([], t)
+    # d0: k = 2 by value, own field after / before / between
+    res.append({"name": "d0", "tagcase": "pascal", "structs": carriers()[:2] + [
+        _sd("DocAfter", [e(N("", "Audit")), e(N("", "Meta")), ttl("title"), own]),
+        _sd("DocBefore", [own, ttl("head"), e(N("", "Audit")), e(N("", "Meta"))]),
+        _sd("DocBetween", [e(N("", "Audit")), own, e(N("", "Meta")), ttl("mid")])]})
+    # d1: by pointer, k = 2 and k = 3 (mixed)
+    res.append({"name": "d1", "tagcase": "camel", "structs": carriers() + [
+        _sd("PtrAfter", [e(P("Audit")), e(P("Meta")), ttl("title"), own]),
+        _sd("Three", [e(N("", "Audit")), e(P("Meta")), e(N("", "Extra")), ttl("label"), own]),
+        _sd("ThreeMid", [e(P("Audit")), own, e(N("", "Meta")), ttl("tag_no"), e(P("Extra"))])]})
+    # d2: depth 2 (Wrap embeds Audit, Box embeds *Meta) next to depth 1
+    res.append({"name": "d2", "tagcase": "lower", "structs": carriers() + [
+        _sd("Wrap", [e(N("", "Audit")), ttl("wname")]), _sd("Box", [e(P("Meta")), ttl("bname")]),
+        _sd("DeepAfter", [e(N("", "Wrap")), e(N("", "Extra")), ttl("title"), own]),
+        _sd("DeepBoth", [e(N("", "Wrap")), e(P("Box")), ttl("both"), own]),
+        _sd("DeepThree", [e(P("Wrap")), e(N("", "Box")), own, e(N("", "Extra")), ttl("three")])]})
+    # d3: the own field of another type than the promoted ones (legal Go: depth 0 wins), upper
+    res.append({"name": "d3", "tagcase": "upper", "structs": carriers()[:2] + [
+        _sd("StrAfter", [e(N("", "Audit")), e(N("", "Meta")), ttl("title"), f(["ID"], B("string"))]),
+        _sd("StrBetween", [e(P("Audit")), f(["ID"], B("string")), e(P("Meta")), ttl("mid")])]})
+    for pkg in res:
+        pkg["extra_decls"], pkg["features"] = [], {}
+        pkg["order"] = [sd["name"] for sd in pkg["structs"]]
+        pkg["rounds"], pkg["getset"] = 1, True
+        pkg["classes"] = [precheck(pkg, sd, pkg["order"]) for sd in pkg["structs"]]
+    return res
+
+
 def gen_packages(run, n):
+    pkgs, stats = _gen_packages(run, n)
+    if n >= 20:
+        extra = fifth_bank_corpus()
+        stats["fifth_bank_corpus"] = len(extra)
+        pkgs += extra
+    return pkgs, stats
+
+
+def _gen_packages(run, n):
     pkgs, stats = [], {"regenerated": 0, "outside_guard_kept": 0, "fatal_expected": 0, "key_collision_kept": 0,
                    "key_collision_regenerated": 0, "fixed_corpus": 0}
     if n >= 20:
